@@ -67,7 +67,39 @@ func ruleImportDeclare(c *Ctx) []Obligation {
 		if f.fn != nil {
 			e.busy[f.fn] = true
 		}
-		sum := e.extract(f, m.Fd.Body.List, r2sibOpts{Calls: declRe, NoInline: true}, 0)
+		// helpers the import function was split into: functions of the package that work on the same import node
+		// (a parameter of the import function's node type) are re-rooted at their call sites; nothing else is
+		var inl []string
+		if f.fn != nil {
+			if msig, ok := f.fn.Type().(*types.Signature); ok && msig.Params().Len() > 0 {
+				nodeT := msig.Params().At(0).Type()
+				isMember := map[*types.Func]bool{}
+				for _, o := range members {
+					if ofn, ok := o.Pkg.TypesInfo.Defs[o.Fd.Name].(*types.Func); ok {
+						isMember[ofn] = true
+					}
+				}
+				for _, fd2 := range AllFuncDecls(m.Pkg) {
+					fn2, _ := m.Pkg.TypesInfo.Defs[fd2.Name].(*types.Func)
+					if fn2 == nil || isMember[fn2] {
+						continue
+					}
+					s2 := fn2.Type().(*types.Signature)
+					for i := 0; i < s2.Params().Len(); i++ {
+						if types.Identical(s2.Params().At(i).Type(), nodeT) {
+							inl = append(inl, regexp.QuoteMeta(r2sibQualName(fn2)))
+							break
+						}
+					}
+				}
+			}
+		}
+		sort.Strings(inl)
+		opts := r2sibOpts{Calls: declRe, NoInline: len(inl) == 0}
+		if len(inl) > 0 {
+			opts.InlineOnly = regexp.MustCompile(`^(` + strings.Join(inl, "|") + `)$`)
+		}
+		sum := e.extract(f, m.Fd.Body.List, opts, 0)
 		if f.fn != nil {
 			delete(e.busy, f.fn)
 		}
@@ -77,41 +109,31 @@ func ruleImportDeclare(c *Ctx) []Obligation {
 		}
 		seen := map[string]int{}
 		for _, ev := range sum.events {
-			if ev.Kind != "call" || ev.Via != "" || ev.Call == nil {
+			if ev.Kind != "call" || ev.Call == nil {
 				continue
 			}
-			callee := CalleeOf(f.info, ev.Call)
-			if callee == nil {
-				continue
+			calleeName := ev.Attrs["callee"]
+			if i := strings.LastIndex(calleeName, "."); i >= 0 {
+				calleeName = calleeName[i+1:]
 			}
-			// only the declaration methods that report the previous holder
-			if sig, ok := callee.Type().(*types.Signature); !ok || sig.Results().Len() == 0 {
-				continue
+			term := ev.Attrs["callterm"]
+			name := ev.Attrs["term"]
+			what := ev.Attrs["arg1"]
+			if len(what) > 70 {
+				what = what[:70] + "…"
 			}
-			term := f.norm(ev.Call)
-			name := ""
-			if len(ev.Call.Args) > 0 {
-				name = f.norm(ev.Call.Args[0])
-			}
-			what := ""
-			if len(ev.Call.Args) > 1 {
-				what = f.norm(ev.Call.Args[1])
-				if len(what) > 70 {
-					what = what[:70] + "…"
-				}
-			}
-			key := fmt.Sprintf("%s|%s(%s, %s)", m.Name, callee.Name(), name, what)
+			key := fmt.Sprintf("%s|%s(%s, %s)", m.Name, calleeName, name, what)
 			seen[key]++
 			if n := seen[key]; n > 1 {
 				key = fmt.Sprintf("%s #%d", key, n)
 			}
-			ob := Obligation{Key: key, Pos: c.Pos(ev.Call.Pos()), Nontrivial: true}
+			ob := Obligation{Key: key, Pos: c.Pos(ev.Pos), Nontrivial: true}
 			// an error event whose guard requires a previous holder reported by this very call
 			want1 := "not(" + term + " == nil)"
 			want2 := term + "#1"
 			var hit *r2sibEvent
 			for _, er := range sum.events {
-				if er.Kind != "error" || er.Pos < ev.Call.Pos() {
+				if er.Kind != "error" || er.Via == ev.Via && er.Pos < ev.Pos {
 					continue
 				}
 				// the reaction belongs to the statement of the call: it follows it closely in the source
@@ -147,12 +169,12 @@ func ruleImportDeclare(c *Ctx) []Obligation {
 			if hit != nil && narrowed != "" {
 				ob.Status = Violated
 				ob.Pos = c.Pos(hit.Pos)
-				ob.Detail = fmt.Sprintf("the previous holder returned by %s is tested, but the error (%s at %s) is produced only under an additional condition: no error when %s — the other import sites report every clash", callee.Name(), hit.Key, c.Pos(hit.Pos), narrowed)
+				ob.Detail = fmt.Sprintf("the previous holder returned by %s is tested, but the error (%s at %s) is produced only under an additional condition: no error when %s — the other import sites report every clash", calleeName, hit.Key, c.Pos(hit.Pos), narrowed)
 			} else if hit != nil {
-				ob.Detail = fmt.Sprintf("the previous holder returned by %s is tested and reported: %s at %s", callee.Name(), hit.Key, c.Pos(hit.Pos))
+				ob.Detail = fmt.Sprintf("the previous holder returned by %s is tested and reported: %s at %s", calleeName, hit.Key, c.Pos(hit.Pos))
 			} else {
 				ob.Status = Violated
-				ob.Detail = fmt.Sprintf("this import site declares %s with %s but no error is produced on the paths where the name is already taken (no error diagnostic is guarded by the 'previous' result of this call), unlike the other import sites: the clash goes unreported", name, exprStr(ev.Call.Fun))
+				ob.Detail = fmt.Sprintf("this import site declares %s with %s but no error is produced on the paths where the name is already taken (no error diagnostic is guarded by the 'previous' result of this call), unlike the other import sites: the clash goes unreported", name, calleeName)
 			}
 			out = append(out, ob)
 		}
